@@ -401,6 +401,8 @@ def cmp(op, a, b):
         x, y = int_term(a), int_term(b)
     else:
         x, y = real_term(a), real_term(b)
+    if x.get_id() == y.get_id():
+        return op in ("==", "<=", ">=")
     t = {
         "==": lambda: x == y,
         "!=": lambda: x != y,
